@@ -134,6 +134,12 @@ func NewWorld(workDir string, hosts int, verbose bool) (*World, error) {
 		TaskClasses: classes,
 		Agents:      agents,
 		Quiet:       !verbose,
+		// offers a few milliseconds after the REVIVE, as a master would: with none, the OFFERS event
+		// can be handled before acquireTasks listens for the verdict of resourceOffers (dropped by
+		// a non-blocking send; acquireTasks then blocks for ever holding the deploy mutex)
+		OfferDelay: 4 * time.Millisecond,
+		// simcore's default burst of 1000 revive tokens costs a thousand 1 ms timers per process
+		Settings: map[string]interface{}{"mesosReviveBurst": 8, "mesosReviveWait": "1ms"},
 	})
 	if err != nil {
 		return nil, err
@@ -330,6 +336,20 @@ func (e *Env) Commanded(event string) []int {
 	}
 	sort.Ints(out)
 	return out
+}
+
+// Accepts: number of ACCEPT calls (task launches) since Mark.
+func (e *Env) Accepts() int {
+	e.mu.Lock()
+	from := e.callMark
+	e.mu.Unlock()
+	n := 0
+	for _, c := range e.W.Sim.CallsSnapshot()[from:] {
+		if c.Type == "ACCEPT" {
+			n++
+		}
+	}
+	return n
 }
 
 // Kills: positions of this environment's tasks for which a KILL call was made since Mark.
